@@ -227,7 +227,8 @@ fn main() {
     }
 
     // ---- planned classes must have been exercised --------------------------------------------
-    let have = |prefix: &str| rep.counters.keys().any(|k| k.starts_with(prefix));
+    let keys: Vec<String> = rep.counters.keys().cloned().collect();
+    let have = |prefix: &str| keys.iter().any(|k| k.starts_with(prefix));
     for op in ALL_OPS {
         if !have(&format!("op[{op}:")) {
             rep.inconclusive(&format!("operation {op} never generated"));
